@@ -360,7 +360,7 @@ impl<N, E, S: BuildHasher, Ty: EdgeType, Null: Nullable<Wrapped = E>, Ix: IndexT
     /// **Panics** if the MatrixGraph is at the maximum number of nodes for its index type.
     #[track_caller]
     pub fn add_node(&mut self, weight: N) -> NodeIndex<Ix> {
-        NodeIndex::new(self.nodes.add(weight))
+        self.try_add_node(weight).unwrap()
     }
 
     /// Try to add a node (also called vertex) with associated data `weight` to the graph.
